@@ -331,12 +331,16 @@ impl ParsedFormula {
                 let branches: Vec<Rc<BDD<NamedSymbol>>> =
                     bs.iter().map(|b| self.eval_recursive(b)).collect();
 
+                // at most branches.len() operands can be true, so every constant above that
+                // compares like branches.len() + 1; clamping keeps the conversion to i64 exact
+                let n = (*n).min(branches.len() + 1) as i64;
+
                 match op {
-                    CountableOperator::AtMost => self.env.amn(&branches, *n as i64),
-                    CountableOperator::AtLeast => self.env.aln(&branches, *n as i64),
-                    CountableOperator::Exactly => self.env.exn(&branches, *n as i64),
-                    CountableOperator::LessThan => self.env.amn(&branches, *n as i64 - 1),
-                    CountableOperator::MoreThan => self.env.aln(&branches, *n as i64 + 1),
+                    CountableOperator::AtMost => self.env.amn(&branches, n),
+                    CountableOperator::AtLeast => self.env.aln(&branches, n),
+                    CountableOperator::Exactly => self.env.exn(&branches, n),
+                    CountableOperator::LessThan => self.env.amn(&branches, n - 1),
+                    CountableOperator::MoreThan => self.env.aln(&branches, n + 1),
                 }
             }
             SymbolicBDD::CountableVariable(op, l, r) => {
